@@ -293,6 +293,16 @@ def angax_value(op, k):
     return float(90 * k) if op["degrees"] else float(k * (np.pi / 2))
 
 
+def angax_as_given(op, g):
+    """the angle argument as the user may write it: a scalar as float or numpy float (scalar input; a 0-d array is not a documented angle), a vector as
+    list or — for odd lengths, in particular length 1 — as ndarray (a one-element 1-D array is still vector input of length 1)"""
+    if g[0] == "s":
+        a = angax_value(op, g[1])
+        return [a, np.float64(a)][int(g[1]) % 2]
+    v = [angax_value(op, q) for q in g[1]]
+    return np.array(v) if len(v) % 2 == 1 else v
+
+
 BAD_KINDS = [
     "remove-nonchild", "add-self", "add-twice",
     "move-str", "move-shape2", "move-n2", "move-none", "move-4d", "move-ragged", "start-float", "start-str",
@@ -671,7 +681,7 @@ def real_lines(h, dump=None):
                 an = op["anchor"]
                 anchor = None if an is None else (0 if an == 0 else an[1])
                 g = op["angle"]
-                angle = angax_value(op, g[1]) if g[0] == "s" else [angax_value(op, q) for q in g[1]]
+                angle = angax_as_given(op, g)
                 axis = op["axis"] if isinstance(op["axis"], str) else tuple(op["axis"])
                 obj.rotate_from_angax(angle, axis, anchor=anchor, start=start_arg(op["start"]), degrees=op["degrees"])
             elif k == "setpos":
@@ -826,7 +836,7 @@ def _real_states(h, dump, root=None):
                 an = op["anchor"]
                 anchor = None if an is None else (0 if an == 0 else an[1])
                 g = op["angle"]
-                angle = angax_value(op, g[1]) if g[0] == "s" else [angax_value(op, q) for q in g[1]]
+                angle = angax_as_given(op, g)
                 axis = op["axis"] if isinstance(op["axis"], str) else tuple(op["axis"])
                 obj.rotate_from_angax(angle, axis, anchor=anchor, start=start_arg(op["start"]), degrees=op["degrees"])
             elif k == "setpos":
